@@ -17,6 +17,9 @@ import numpy as np
 from .. import models
 from ..core import EventLog, InjectedFault
 
+# largest observed (deviation / tolerance) of a comparison that passed
+MARGIN = [0.0]
+
 ID = "C20"
 LEVEL = "exploration"
 ENGINE = "opmachine"
@@ -341,6 +344,8 @@ def _close(a, b, tol):
         return True, 0.0
     scale = max(1.0, float(np.max(np.abs(b))))
     err = float(np.max(np.abs(a - b)))
+    if err <= tol * scale:
+        MARGIN[0] = max(MARGIN[0], err / (tol * scale))
     return err <= tol * scale, err
 
 
@@ -1083,6 +1088,7 @@ def run_case(case, dec):
         + stats["computations"] >= 2,
         "key": "e%d/b%d/c%d" % (stats["evals"], stats["bath_evals"],
                                 stats["computations"]),
+        "margin": MARGIN[0],
         "stats": stats,
     }
 
@@ -1112,4 +1118,6 @@ def summarize(results):
     for r in results:
         for a, b in (r.get("stats") or {}).items():
             tot[a] = tot.get(a, 0) + b
-    return {"operations": tot}
+    return {"operations": tot,
+            "largest_passing_deviation_over_tolerance": max(
+                [r.get("margin", 0.0) for r in results] or [0.0])}
